@@ -5,6 +5,8 @@ import (
 	"fmt"
 	"strings"
 
+	"github.com/evolbioinfo/gotree/io/nextstrain"
+	"github.com/evolbioinfo/gotree/io/phyloxml"
 	"github.com/evolbioinfo/gotree/io/utils"
 	"github.com/evolbioinfo/gotree/tree"
 )
@@ -142,5 +144,112 @@ func H_C02_nexus_template() {
 		c02readOne(in, utils.FORMAT_NEXUS)
 	} else {
 		c02readMulti(in, utils.FORMAT_NEXUS)
+	}
+}
+
+// ---------------------------------------------------------------------------
+// decoded PhyloXML / Nextstrain documents of any small shape (childless root,
+// single children, empty names, missing values): conversion never crashes;
+// every delivered tree can be used.
+
+// document shapes: each template is the list of the parent index of every clade
+// (-1 = root); they include a childless root, single children, chains.
+var c02templates = [][]int{
+	{-1},
+	{-1, 0},
+	{-1, 0, 0},
+	{-1, 0, 1},
+	{-1, 0, 0, 0},
+	{-1, 0, 0, 1, 1},
+	{-1, 0, 1, 2},
+	{-1, 0, 0, 1},
+}
+
+func c02clade(tpl []int, idx int, tag string) phyloxml.Clade {
+	c := phyloxml.Clade{}
+	switch sxChoose(fmt.Sprintf("%sv%d", tag, idx), 4) {
+	case 0:
+		c.Name = fmt.Sprintf("x%s%d", tag, idx)
+		l, cf := sxLen(fmt.Sprintf("%sL%d", tag, idx)), sxLen(fmt.Sprintf("%sC%d", tag, idx))
+		sxAssume(l >= 0 && cf >= 0)
+		c13setFloat(&c.BranchLength, l)
+		c13setFloat(&c.Confidence, cf)
+	case 1:
+	case 2:
+		c.Tax.ScientificName = fmt.Sprintf("s%s%d", tag, idx)
+		l := sxLen(fmt.Sprintf("%sL%d", tag, idx))
+		sxAssume(l >= 0)
+		c13setFloat(&c.BranchLength, l)
+	case 3:
+		c.Name = fmt.Sprintf("x%s%d", tag, idx)
+	}
+	for k, p := range tpl {
+		if p == idx {
+			c.Clades = append(c.Clades, c02clade(tpl, k, tag))
+		}
+	}
+	return c
+}
+
+func H_C02_phyloxml_units() {
+	px := &phyloxml.PhyloXML{}
+	switch sxChoose("nphylo", 3) {
+	case 1:
+		tpl := c02templates[sxChoose("template", len(c02templates))]
+		px.Phylogenies = append(px.Phylogenies, phyloxml.Phylogeny{Root: c02clade(tpl, 0, "p")})
+	case 2:
+		// two phylogenies, the second one without any name
+		px.Phylogenies = append(px.Phylogenies, phyloxml.Phylogeny{Root: c02clade(c02templates[2], 0, "p")})
+		px.Phylogenies = append(px.Phylogenies, phyloxml.Phylogeny{Root: phyloxml.Clade{Clades: []phyloxml.Clade{{}, {}}}})
+	}
+	sxReach("input")
+	px.IterateTrees(func(t *tree.Tree, err error) {
+		if err == nil {
+			sxReach("delivered")
+			c02use(t)
+		} else {
+			sxReach("refused")
+		}
+	})
+	t, err := px.FirstTree()
+	if err == nil && t != nil {
+		c02use(t)
+	}
+}
+
+func c02nsnode(tpl []int, idx int) nextstrain.NsNode {
+	c := nextstrain.NsNode{}
+	switch sxChoose(fmt.Sprintf("v%d", idx), 3) {
+	case 0:
+		c.Name = fmt.Sprintf("x%d", idx)
+	case 1:
+	case 2:
+		c.Name = fmt.Sprintf("x%d", idx)
+		c.BranchAttr.Labels.Aa = "ORF1a: A1T, B2C"
+		c.Attributes.Country.Value = "a b,c:d"
+	}
+	c.Attributes.Divergence = sxLen(fmt.Sprintf("D%d", idx))
+	for k, p := range tpl {
+		if p == idx {
+			c.Children = append(c.Children, c02nsnode(tpl, k))
+		}
+	}
+	return c
+}
+
+func H_C02_nextstrain_units() {
+	ns := &nextstrain.Nextstrain{Version: "v2", Tree: c02nsnode(c02templates[sxChoose("template", len(c02templates))], 0)}
+	sxReach("input")
+	ns.IterateTrees(func(t *tree.Tree, err error) {
+		if err == nil {
+			sxReach("delivered")
+			c02use(t)
+		} else {
+			sxReach("refused")
+		}
+	})
+	t, err := ns.FirstTree()
+	if err == nil && t != nil {
+		c02use(t)
 	}
 }
